@@ -156,6 +156,7 @@ func TestVerifC20(t *testing.T) {
 			sp := c20CounterSpec(t, n, min)
 			st := seqmc.Run(sp)
 			seqmc.Fill(r, sp.Name, st)
+			r.Distinct += st.States - 1 // distinct reachable states other than the initial one
 		}
 	}
 	r.Flush()
@@ -280,6 +281,7 @@ func c20Detector(t *testing.T) {
 			}
 			st := seqmc.Run(sp)
 			seqmc.Fill(r, sp.Name, st)
+			r.Distinct += st.States - 1 // distinct reachable states other than the initial one
 		}
 	}
 	r.Flush()
